@@ -56,7 +56,7 @@ ERR_KINDS = {
 def err_kind(exc) -> str:
     # an exception a harness op raises to say "the implementation did something the property forbids although it
     # ended in a refusal" (wrote output before refusing, malformed CLI output, ...): never agrees with the model
-    if getattr(exc, "harness_violation", False) or type(exc).__name__.startswith("Cli"):
+    if getattr(exc, "harness_violation", False) or type(exc).__name__ in ("CliLeak", "CliEmittedOnRefusal", "CliMalformed"):
         return "Violation"
     for klass in type(exc).__mro__:
         if klass.__name__ in ERR_KINDS:
